@@ -469,7 +469,7 @@ func (c *conductor) act(a string) bool {
 		if c.cur == nil {
 			return false
 		}
-		burstPicks(c.cur.h)
+		burstPicks(c, c.cur.h)
 		c.trigger(c.cur)
 		c.fillBarrier() // every one of the started fill() calls has decided
 	case "down":
@@ -687,7 +687,10 @@ func (c *conductor) concurrentAdd(n int, park bool, doneCnt *int64) {
 		} else {
 			last, same = sig, 0
 		}
-		return same >= 2 && (strings.Contains(sig, "HostInfo") || int(atomic.LoadInt64(doneCnt)) > 0)
+		// … and somebody got past the pool map: a caller stands at the HostInfo (inside newHostConnPool's arguments,
+		// or in policy.AddHost after its addHost returned) or has returned — of two or more callers at most one can be
+		// held in the synchronous dial of a fill instead
+		return same >= 2 && (int(atomic.LoadInt64(doneCnt)) > 0 || labelledBoth(c.label, ".(*HostInfo).", "sync.(*RWMutex)") > 0)
 	}))
 	gocql.VerifHostInfoUnlock(c.host)
 }
@@ -1188,8 +1191,11 @@ func parsePipeCfg(ws []string) (pipeCfg, bool) {
 }
 
 // burstPicks: n goroutines (not more than half of the processors, so that all of them really run at the same time)
-// spin on one flag and call Pick the moment it flips: several `go pool.fill()` start within nanoseconds.
-func burstPicks(h *gocql.VerifHostPool) {
+// spin on one flag and fire the moment it flips: several fill() calls of different origins start within nanoseconds —
+// Pick (`go pool.fill()`), the reconnect ticker's policyConnPool.addHost and an UP event's startPoolFill (both find
+// the registered pool and call pool.fill() themselves; the one whose fill dials the first connection of an empty pool
+// synchronously returns only when that dial is answered, so the addHost callers are not waited for here).
+func burstPicks(c *conductor, h *gocql.VerifHostPool) {
 	n := runtime.GOMAXPROCS(0) / 2
 	if n > 8 {
 		n = 8
@@ -1201,16 +1207,26 @@ func burstPicks(h *gocql.VerifHostPool) {
 	var flag int32
 	for i := 0; i < n; i++ {
 		ready.Add(1)
-		done.Add(1)
+		i := i
+		if i%4 != 1 && i%4 != 3 {
+			done.Add(1)
+		}
 		go func() {
-			defer done.Done()
 			ready.Done()
 			for k := 0; atomic.LoadInt32(&flag) == 0; k++ {
 				if k&0xfffff == 0xfffff {
 					runtime.Gosched()
 				}
 			}
-			h.Pick()
+			switch i % 4 {
+			case 1:
+				gocql.VerifPoolAddHost(c.s, c.host)
+			case 3:
+				gocql.VerifStartPoolFill(c.s, c.host)
+			default:
+				h.Pick()
+				done.Done()
+			}
 		}()
 	}
 	ready.Wait()
